@@ -239,6 +239,10 @@ class Expander:
                 # the definition must dominate the use (no path bypassing it): unique reaching def guarantees it
                 self.expanded_paths.add(path)
                 return self._x(d.value, d.node, depth + 1, seen | {id(d)}, stop)
+            if d is None and isinstance(e, ast.Name):
+                j = self._conditional_overwrite(path, at, depth, seen, stop)
+                if j is not None:
+                    return j
             if d is None and isinstance(e, ast.Attribute):
                 # no definition of the whole path: expand the base only
                 new = copy.copy(e)
@@ -300,6 +304,46 @@ class Expander:
                         x, (ast.cmpop, ast.expr_context)) else x for x in v])
             return new
         return e
+
+    def _conditional_overwrite(self, var, at, depth, seen, stop):
+        """x = A; if c: x = B; ... x ...    ->   (B if c else A);  the special cases `if not x` / `if x is None` give `A or B` /
+        `A if A is not None else B`.  Only when exactly these two definitions reach the use, the first dominates both the
+        second and the use, and the second sits under exactly one more condition than the first."""
+        ds = self.flow.reaching(var, at)
+        if len(ds) != 2 or any(d.kind != 'assign' or d.value is None or d.node is None or id(d) in seen for d in ds):
+            return None
+        cfg = self.flow.cfg
+        for d1, d2 in (ds, ds[::-1]):
+            if d1.node is d2.node or d1.node is at or d2.node is at:
+                continue
+            if not (cfg.dominates(d1.node, d2.node) and cfg.dominates(d1.node, at)):
+                continue
+            c1, c2 = cfg.conditions(d1.node), cfg.conditions(d2.node)
+            if len(c2) != len(c1) + 1 or any(a[0] is not b[0] or a[1] != b[1] for a, b in zip(c1, c2)):
+                continue
+            test, pol = c2[-1]
+            tn = cfg.node_containing(test)
+            if tn is None or not cfg.dominates(d1.node, tn):
+                continue
+            u = self.flow.unique_def(var, tn)
+            if u is not d1:
+                continue
+            s2 = seen | {id(d1), id(d2)}
+            a = self._x(d1.value, d1.node, depth + 1, s2, stop)
+            b = self._x(d2.value, d2.node, depth + 1, s2, stop)
+            this = ast.Name(id=var, ctx=ast.Load())
+            t = test if pol else ast.UnaryOp(op=ast.Not(), operand=test)
+            self.expanded_paths.add(var)
+            if isinstance(t, ast.UnaryOp) and isinstance(t.op, ast.Not) and ast.dump(t.operand) == ast.dump(this):
+                return ast.BoolOp(op=ast.Or(), values=[a, b])
+            if isinstance(t, ast.Compare) and len(t.ops) == 1 and isinstance(t.ops[0], ast.Is) and ast.dump(t.left) == ast.dump(this) \
+                    and isinstance(t.comparators[0], ast.Constant) and t.comparators[0].value is None:
+                return ast.IfExp(test=ast.Compare(left=copy.deepcopy(a), ops=[ast.IsNot()], comparators=[ast.Constant(value=None)]),
+                                 body=a, orelse=b)
+            tx = self._x(t, tn, depth + 1, s2 , stop | {var})
+            tx = _subst(tx, {var: a})
+            return ast.IfExp(test=tx, body=b, orelse=a)
+        return None
 
     _MUTATORS = {'append', 'extend', 'insert', 'remove', 'pop', 'clear', 'sort', 'reverse', 'add', 'discard', 'update', 'setdefault',
                  'popitem', '__setitem__', '__delitem__'}
